@@ -365,7 +365,15 @@ func (e *vestEnv) checkSend(c *fw.Case, o *txOutcome, paid *big.Int, want map[st
 	expectDeltas(c, "C08/send-transfer", o, want)
 	if o.pre.Accounts[op.to] != "" {
 		c.Violate("C08/recipient-existed", "send succeeded for existing address %s", op.to)
+		if o.now.Before(p.LockEnd) {
+			// C06: coins leave a locked pool only into a newly created vesting account
+			c.ViolateD("C06/locked-pool-paid-existing-account", map[string]string{"op": op.desc, "before": o.pre.Accounts[op.to], "after": o.post.Accounts[op.to]},
+				"send of %s from pool %s, locked until %s, went to the already existing account %s", op.amount, p.Name, fmtTime(p.LockEnd), short(o.pre.Accounts[op.to], 200))
+		}
 		return
+	}
+	if pv := parseCVA(o.post.Accounts[op.to]); o.now.Before(p.LockEnd) && (pv == nil || pv.Type != cvaType) {
+		c.ViolateD("C06/locked-pool-paid-non-vesting-account", map[string]string{"op": op.desc, "account": o.post.Accounts[op.to]}, "send from pool %s, locked until %s: recipient is %s", p.Name, fmtTime(p.LockEnd), short(o.post.Accounts[op.to], 200))
 	}
 	vt := e.typeInfo(p.Type)
 	if vt == nil {
